@@ -27,7 +27,7 @@ func main() {
 			replay(c, cfg, res)
 		} else {
 			p := buildPool(c, cfg, res, lib.NewRng(cfg.Seed))
-			run(p, cfg, res, lib.NewRng(cfg.Seed+7919), nil)
+			run(p, cfg, res, lib.NewRng(cfg.Seed+7919), nil, fromArrayFamily(lib.NewRng(cfg.Seed+104729), cfg.Thorough()))
 		}
 	})
 	res.Write(cfg)
@@ -39,10 +39,16 @@ func gKey(k string, ok bool) string { return lib.GOpt(ok, lib.GStr(k), "list N")
 
 // run performs D on the pool and emits the cases for M. only != nil restricts the emitted value
 // rows to the descriptions with these texts (replay of a correspondence case).
-func run(p *pool, cfg *lib.Config, res *lib.Result, rng *lib.Rng, only map[string]bool) {
+// fa are the from-array descriptions (fromarray.go).
+func run(p *pool, cfg *lib.Config, res *lib.Result, rng *lib.Rng, only map[string]bool, fa []*V) {
 	ck := &checker{p: p, res: res, viol: map[string]int{}}
 	ck.keys()
 	ck.pairs()
+	ck.ownEntriesOfPool()
+	ck.derivedOfPool()
+	cfa := &lib.CasesFile{Imports: imports, Typ: "from_array_case",
+		Obligations: map[string]string{"from_array_model": "c07_from_array_mismatches cases"}}
+	ck.fromArrays(fa, cfa)
 	nHashes, nUnique := 120, 400
 	if cfg.Thorough() {
 		nHashes, nUnique = 600, 4000
@@ -136,6 +142,7 @@ func run(p *pool, cfg *lib.Config, res *lib.Result, rng *lib.Rng, only map[strin
 			map[string]interface{}{"kind": "values", "clause": "unique", "vs": u.list})
 	}
 	res.CorrFiles = append(res.CorrFiles, cu.WriteTo(cfg.Out, "cases_unique"))
+	res.CorrFiles = append(res.CorrFiles, cfa.WriteTo(cfg.Out, "cases_from_array"))
 }
 
 func equalTexts(p *pool, ck *checker, i int) []string {
@@ -168,17 +175,30 @@ func replay(c px.Context, cfg *lib.Config, res *lib.Result) {
 	if body.Seed != 0 {
 		seed = body.Seed
 	}
-	var rows, vals []*V
+	var rows, vals, fa []*V
 	for _, in := range lib.ReplayInputs(cfg.Replay) {
 		var x struct {
 			Kind string `json:"kind"`
 			Vs   []*V   `json:"vs"`
 		}
 		lib.Remarshal(in, &x)
-		if x.Kind == "row" {
+		switch x.Kind {
+		case "row":
 			rows = append(rows, x.Vs...)
-		} else {
+		case "fromarray":
+			// a from-array correspondence case: the description of the hash by the array it is made from
+			fa = append(fa, x.Vs...)
+			for _, d := range x.Vs {
+				fmt.Printf("from-array case: %s: its entries, Get/IncludesKey of the keys of the array, Equals against directly wrapped hashes\n", d)
+			}
+		default:
 			vals = append(vals, x.Vs...)
+			// a failing input that is a hash described by its array is also run as a from-array case
+			for _, d := range x.Vs {
+				if d.isRawFromArray() {
+					fa = append(fa, d)
+				}
+			}
 		}
 	}
 	p := &pool{seen: map[string]bool{}, c: c, res: res}
@@ -197,7 +217,7 @@ func replay(c px.Context, cfg *lib.Config, res *lib.Result) {
 			fmt.Printf("cannot build %s\n", d)
 		}
 	}
-	run(p, &rc, res, lib.NewRng(seed+7919), only)
+	run(p, &rc, res, lib.NewRng(seed+7919), only, fa)
 	quiet := &checker{p: p, res: lib.NewResult("C07"), viol: map[string]int{}}
 	for i, it := range p.items {
 		if i >= first || only[it.text] {
